@@ -534,8 +534,83 @@ func endToEnd(meta *common.Meta, tier string, seed int64, outDir string, names [
 			}
 		}
 	}
+	// the analysis binaries, in the analyzer's flag dialect: 'is enabled' lines of -debug-init, and an
+	// empty selection must be a reported error (non-zero exit, message), never a silent clean run
+	anCfgs := []struct {
+		all     bool
+		enable  *string
+		disable *string
+	}{
+		{false, nil, nil}, {true, nil, nil}, {true, nil, sp("#experimental,#opinionated")}, {false, sp("captLocal"), sp("#style")},
+		{false, sp("#performance"), nil}, {false, sp("nosuchchecker"), nil}, {false, sp("appendAssign,hugeParam"), sp("")},
+		{true, nil, sp("#diagnostic,#style,#performance")}, {false, sp("#security"), sp("")},
+	}
+	trim := func(s string) []string {
+		parts := strings.Split(s, ",")
+		for k := range parts {
+			parts[k] = strings.TrimSpace(parts[k])
+		}
+		return parts
+	}
+	for _, c := range anCfgs {
+		aen := "#diagnostic,#style,#security"
+		if c.enable != nil {
+			aen = *c.enable
+		}
+		adis := "<default>"
+		if c.disable != nil {
+			adis = *c.disable
+		}
+		if adis == "<default>" {
+			if c.all {
+				adis = ""
+			} else {
+				adis = "#experimental,#opinionated,#performance"
+			}
+		}
+		var want []string
+		for j, nme := range names {
+			if oracleSelected(c.all, trim(aen), trim(adis), nme, tags[j]) {
+				want = append(want, nme)
+			}
+		}
+		sort.Strings(want)
+		for _, exe := range []string{"go-critic-analysis", "gocritic-analysis"} {
+			args := []string{"-debug-init"}
+			if c.all {
+				args = append(args, "-enable-all")
+			}
+			if c.enable != nil {
+				args = append(args, "-enable="+*c.enable)
+			}
+			if c.disable != nil {
+				args = append(args, "-disable="+*c.disable)
+			}
+			args = append(args, "./...")
+			out, code, err := common.Run(120*time.Second, ws, env, filepath.Join(bin, exe), args...)
+			ran++
+			if err != nil {
+				meta.Fail("C06/"+exe+"/e2e-run", "binary did not finish: "+err.Error(), args)
+				continue
+			}
+			got := parseEnabled(out)
+			if !eqStrs(got, want) {
+				meta.Fail("C06/"+exe+"/e2e-selection", fmt.Sprintf("'is enabled' lines %v differ from the documented rule %v", head(got, 6), head(want, 6)), args)
+			}
+			if len(want) == 0 && (code == 0 || !strings.Contains(out, "empty checkers set selected")) {
+				meta.Fail("C06/"+exe+"/e2e-empty", fmt.Sprintf("empty selection is not reported as an error: exit=%d output=%q", code, tail(out)), args)
+			}
+		}
+	}
 	meta.Distribution["end_to_end_runs"] = ran
 	os.RemoveAll(ws)
+}
+
+func head(l []string, n int) []string {
+	if len(l) > n {
+		return l[:n]
+	}
+	return l
 }
 
 var diagRE = regexp.MustCompile(`^\S+\.go:\d+:\d+: (\w+): `)
